@@ -29,7 +29,7 @@ let pack_str p =
   Printf.sprintf "%s/%s[%s]" (idstr p.pid) size
     (String.concat ";" (List.map (fun (i, t, o, l, u) -> Printf.sprintf "%s.%s.%d.%d.%d" i t o l u) bs))
 
-let case line =
+let case release line =
   let t = toks line in
   let nf = ni t in
   let files = ntimes nf (fun () ->
@@ -39,28 +39,45 @@ let case line =
   let nq = ni t in
   let qs = ntimes nq (fun () -> let tp = if ni t = 0 then Tree else Data in let id = rd_id t in (tp, id)) in
   let b = Buffer.create 1024 in
-  List.iteri (fun k m ->
+  let block k ixo =
     if k > 0 then Buffer.add_char b ' ';
-    match index_of m files with
+    match ixo with
     | None -> Buffer.add_string b "M panic"
     | Some ix ->
       Buffer.add_string b (Printf.sprintf "M %d %d" (int_of_n (total_size ix Tree)) (int_of_n (total_size ix Data)));
       List.iter (fun (tp, id) ->
         let h = if has ix tp id then 1 else 0 in
+        (* the typed wrappers must be the typed lookups *)
+        (match tp with
+         | Tree -> if has_tree ix id <> has ix tp id || get_tree ix id <> get_id ix tp id then failwith "wrapper"
+         | Data -> if has_data ix id <> has ix tp id || get_data ix id <> get_id ix tp id then failwith "wrapper");
         let g = match get_id ix tp id with
           | None -> "-"
           | Some ((tp', pk), lc) -> Printf.sprintf "%s:%s:%s" (tstr tp') (idstr pk) (loc_str lc) in
-        Buffer.add_string b (Printf.sprintf " %d %s" h g)) qs;
+        (* blob_from_backend: the partial read it would issue *)
+        let r = match blob_read_request ix tp id with
+          | None -> "-"
+          | Some rq -> Printf.sprintf "%d:%s:%d:%d:%d" (if rq.r_cacheable then 1 else 0) (idstr rq.r_pack)
+                         (int_of_n rq.r_off) (int_of_n rq.r_len) (ulen_int rq.r_ulen) in
+        Buffer.add_string b (Printf.sprintf " %d %s %s" h g r)) qs;
       Buffer.add_string b " I";
-      List.iter (fun p -> Buffer.add_char b ' '; Buffer.add_string b (pack_str p)) (into_iter ix))
+      List.iter (fun p -> Buffer.add_char b ' '; Buffer.add_string b (pack_str p)) (into_iter ix) in
+  List.iteri (fun k m -> block k (if release then index_of_release m files else index_of m files))
     [Full; DataIds; OnlyTrees];
-  Buffer.add_string b (Printf.sprintf " | S %d %d %d %d" (int_of_n (total_spec files Tree)) (int_of_n (total_spec files Data))
-    (if no_overflow files then 1 else 0) (if all_homogeneous files then 1 else 0));
+  block 3 (if release then prune_index_of_release files else prune_index_of files);
+  let ap = all_packs files in
+  let b01 x = if x then 1 else 0 in
+  Buffer.add_string b (Printf.sprintf " | S %d %d %d %d %d %d %d %d %d %d" (int_of_n (total_spec files Tree)) (int_of_n (total_spec files Data))
+    (b01 (no_overflow files)) (b01 (all_homogeneous files))
+    (int_of_n (total_release files Tree)) (int_of_n (total_release files Data)) (b01 (counts_fit files))
+    (int_of_n (total_in ap Tree)) (int_of_n (total_in ap Data)) (b01 (no_overflow_in ap)));
+  let cands c = if c = [] then "-" else String.concat "," (List.map (fun (pk, lc) -> Printf.sprintf "%s:%s" (idstr pk) (loc_str lc)) c) in
   List.iter (fun (tp, id) ->
-    let c = listings files tp id in
-    Buffer.add_string b (Printf.sprintf " %d %d %s" (if listed files tp id then 1 else 0)
-      (if listed_by_blob_type files tp id then 1 else 0)
-      (if c = [] then "-" else String.concat "," (List.map (fun (pk, lc) -> Printf.sprintf "%s:%s" (idstr pk) (loc_str lc)) c)))) qs;
+    Buffer.add_string b (Printf.sprintf " %d %d %s %d %s" (b01 (listed files tp id))
+      (b01 (listed_by_blob_type files tp id)) (cands (listings files tp id))
+      (b01 (listed_anywhere files tp id)) (cands (listings_in ap tp id)))) qs;
   Buffer.contents b
 
-let () = main_loop case
+let () =
+  let release = Array.length Sys.argv > 2 && Sys.argv.(2) = "release" in
+  main_loop (case release)
